@@ -202,6 +202,7 @@ func connsimExec(r *Run) {
 	}
 	pFail := t.Range(0, 90, "p-dial-fail")
 	pNoAddr := t.Range(0, 30, "p-no-addr")
+	var gone []uint64 // ids whose disconnect has been reported once
 	stepOnce := func(healing bool) bool {
 		synctest.Wait()
 		check("fault-phase")
@@ -225,6 +226,11 @@ func connsimExec(r *Run) {
 		s.mu.Unlock()
 		if !healing && len(open) > 0 {
 			evs = append(evs, ev{"disconnect", nil, 6})
+		}
+		// the server reports the end of one connection from two places (peer done, failed add): the same id may be
+		// disconnected twice
+		if !healing && len(gone) > 0 {
+			evs = append(evs, ev{"disconnect-again", nil, 3})
 		}
 		evs = append(evs, ev{"clock", nil, 6})
 		ws := make([]int, len(evs))
@@ -263,6 +269,15 @@ func connsimExec(r *Run) {
 			id := open[t.Draw(len(open), "disc-idx")]
 			r.Logf("disconnect connreq (peer done), %d open", len(open))
 			r.Fault("disconnect")
+			cm.Disconnect(id)
+			gone = append(gone, id)
+		case "disconnect-again":
+			k := t.Draw(len(gone), "gone-idx")
+			id := gone[k]
+			// (the ids themselves are handed out by concurrent goroutines of the manager and differ between runs;
+			// the order of the disconnects does not)
+			r.Logf("disconnect #%d of this run reported a second time", k+1)
+			r.Fault("disconnect-reported-twice")
 			cm.Disconnect(id)
 		case "clock":
 			d := time.Duration(t.Range(1, 200, "clock-ms")) * time.Millisecond
